@@ -126,6 +126,20 @@ func moveCondition(w *world.World, v *vcView) (bool, string) {
 		if !anyIn(both, ps.M) {
 			return false, "no completed miner of the previous set"
 		}
+		if len(v.Keep) > 0 { // the kept sharders become the new sharder set: all registered, at least min_s
+			reg := map[string]bool{}
+			for _, id := range v.Sharders {
+				reg[id] = true
+			}
+			for _, id := range v.Keep {
+				if !reg[id] {
+					return false, "a kept sharder is not registered any more"
+				}
+			}
+			if len(v.Keep) < minS {
+				return false, "fewer kept sharders than min_s"
+			}
+		}
 		return true, ""
 	}
 	return true, ""
@@ -252,6 +266,11 @@ func vcMonitor(s *chainsim.Step, v func(key, what string)) {
 	}
 	due := r-v1.Start >= vcPhaseLen
 	from := phaseName[v1.Phase]
+	// a DKG phase is never entered without DKG participants
+	if v2.Phase != v1.Phase && v2.Phase >= 1 && v2.Phase <= 4 && (len(v2.DKG) == 0 || v2.K == 0) {
+		v("C38:setPhaseNode:phase-entered-with-empty-dkg-miner-set:"+phaseName[v2.Phase], fmt.Sprintf("round %d: %s -> %s (start %d, restarts %d) with %d DKG miners, T/K/N %d/%d/%d",
+			r, from, phaseName[v2.Phase], v2.Start, v2.Restarts, len(v2.DKG), v2.T, v2.K, v2.N))
+	}
 	if !due {
 		s.Tag("phase-" + from + "-not-due")
 		if v2.Phase != v1.Phase || v2.Start != v1.Start {
@@ -281,8 +300,11 @@ func vcMonitor(s *chainsim.Step, v func(key, what string)) {
 		if v2.Phase != 0 || v2.Start != r {
 			v("C38:setPhaseNode:no-restart-although-condition-fails:"+from, fmt.Sprintf("round %d: %s; expected restart at start/%d, contract is at %s/%d", r, why, r, phaseName[v2.Phase], v2.Start))
 		}
-		if len(v2.Mpks) != 0 || len(v2.Sos) != 0 {
-			v("C38:restart-kept-dkg-contributions", fmt.Sprintf("after the restart the contract still holds %d mpks, %d share sets", len(v2.Mpks), len(v2.Sos)))
+		if len(v2.Mpks) != 0 || len(v2.Sos) != 0 || len(v2.DKG) != 0 || len(v2.Keep) != 0 || len(v2.Waited) != 0 {
+			v("C38:restart-kept-dkg-contributions", fmt.Sprintf("after the restart the contract still holds %d mpks, %d share sets, %d DKG miners, %d kept sharders, %d waits", len(v2.Mpks), len(v2.Sos), len(v2.DKG), len(v2.Keep), len(v2.Waited)))
+		}
+		if v2.Phase == 0 && v2.Restarts != v1.Restarts+1 {
+			v("C38:restart-not-counted", fmt.Sprintf("restarts %d -> %d after a failed %s phase", v1.Restarts, v2.Restarts, from))
 		}
 		return
 	}
@@ -351,15 +373,38 @@ func c38(run *ev.Run) {
 		}
 	}
 	d1, d2 := run.Pick(1, 2), run.Pick(2, 3)
-	run.Rule = "deviation-bounded BFS: every round is one block holding the DKG transactions of the round and then the generator's fee payment (which steps the phase machine); from the registered 4-miner/2-sharder chain with view change enabled and phase length 2, all round sequences up to the depth bound that follow the honest state-dependent script except for at most max_deviations rounds, each deviation being any letter of the alphabet (nobody contributes, no fee payment, 2 or 3 of 4 miners contribute / publish / wait, short, repeated, foreign, invalid-share, invalid-signature, too-few and out-of-phase transactions). Real DKG material (bls.MakeDKG, seeded). Oracle: reference phase machine (phase, start round) with the move conditions from the contract settings, per-transaction acceptance rules, membership of the produced magic block"
-	run.Bounds["max_deviations"] = map[string]int{"full-cycle": d1, "prefix": d2}
+	// phase-function failures: the move condition of a phase holds at its deadline but the work of the
+	// move fails (too few miners left). Needs K < min_n (k_percent .5 => K = 2, min_n = 3) or fewer
+	// registered miners than min_n; base scripts with two of the four miners offline.
+	rootK2 := append(append([]chainsim.Action{}, root...), settings(w, "k_percent", "0.5", "t_percent", "0.5"))
+	rootTwo := []chainsim.Action{root[0], root[1], root[4], root[5]}
+	failAlphabet := func(maxDev int) []chainsim.Action {
+		dev := func(name string, noPay bool, ds ...dkgTxn) chainsim.Action {
+			return vcRound(w, m, name, maxDev, false, noPay, fixedTxs(ds...))
+		}
+		return []chainsim.Action{
+			vcRound(w, m, "H", maxDev, true, false, honestTxs(w)),
+			vcRound(w, m, "Hc2", maxDev, true, false, honestSubset(w, 2, 2)),
+			vcRound(w, m, "Hp2", maxDev, true, false, honestSubset(w, 4, 2)),
+			dev("idle", false),
+			dev("no-payfees", true),
+			dev("raise-min_s(owner)", false, dkgTxn{"raise-min-s", "owner"}),
+			dev("mpk(m0,m1,m2)", false, many("mpk", "m0", "m1", "m2")...),
+			dev("sos(m0,m1,m2)", false, many("sos", "m0", "m1", "m2")...),
+			dev("wait(m0)", false, dkgTxn{"wait", "m0"}),
+		}
+	}
+	run.Rule = "deviation-bounded BFS: every round is one block holding the DKG transactions of the round and then the generator's fee payment (which steps the phase machine); from the registered 4-miner/2-sharder chain with view change enabled and phase length 2, all round sequences up to the depth bound that follow the honest state-dependent script except for at most max_deviations rounds, each deviation being any letter of the alphabet (nobody contributes, no fee payment, 2 or 3 of 4 miners contribute / publish / wait, short, repeated, foreign, invalid-share, invalid-signature, too-few and out-of-phase transactions). Base scripts besides the all-honest one: two of four miners offline from the start (Hc2) or after contributing (Hp2), from roots with K=2 < min_n=3 (k_percent .5 set by the owner) and with only two registered miners, so that a phase whose move condition holds fails in its phase function; the owner raising min_s in the middle of a DKG is a deviation letter. Real DKG material (bls.MakeDKG, seeded). Oracle: reference phase machine (phase, start round) with the move conditions from the contract settings, per-transaction acceptance rules, membership of the produced magic block; after any failed phase the node is Start with restarts+1, start round = current round and all DKG lists cleared, and no DKG phase is ever entered with an empty DKG miner set"
+	run.Bounds["max_deviations"] = map[string]int{"full-cycle": d1, "prefix": d2, "failure-scripts": 0, "failure-deviations": d1}
 	run.Bounds["phase_length_rounds"] = vcPhaseLen
 	run.Assumptions = append(run.Assumptions, "DKG transactions inside a round are judged by their status and by the contract's records after the round's transactions (no per-transaction leaf diff)",
 		"the intended validity of shares/signatures is known from the builder (the monitor does not re-verify BLS shares)",
 		"states reached with different deviation counts are merged by the explorer's deduplication (first arrival decides the remaining deviation budget)",
 		"latest finalized magic block stays the genesis one (no finalization in the engine); the contract's own prev_magic_block decides after a view change")
 	explorePhases(run, w, []phase{
-		{"full-cycle", alphabet(d1), [][]chainsim.Action{root}, run.Pick(14, 24), secs(run, 25, 400)},
-		{"prefix", alphabet(d2), [][]chainsim.Action{root}, run.Pick(9, 13), secs(run, 40, 400)},
+		{"failure-scripts", failAlphabet(0)[:3], [][]chainsim.Action{rootK2, rootTwo, root}, run.Pick(13, 24), secs(run, 20, 100)},
+		{"full-cycle", alphabet(d1), [][]chainsim.Action{root}, run.Pick(14, 24), secs(run, 25, 250)},
+		{"failure-deviations", failAlphabet(d1), [][]chainsim.Action{rootK2, rootTwo}, run.Pick(13, 16), secs(run, 40, 250)},
+		{"prefix", alphabet(d2), [][]chainsim.Action{root}, run.Pick(9, 13), secs(run, 30, 250)},
 	}, vcMonitor)
 }
